@@ -185,10 +185,11 @@ SPECS["C04"] = {
               "in 8 VRs, Strs of 2..3 short strings, Tags x1, Empty; symbolic tag (not FFFE,xxxx, not (0008,0005)), symbolic caller-supplied header length, symbolic content; "
               "token streams of 5 shapes (sequence > item > element; nested sequences; empty item + item + trailing element; encapsulated pixel data then nested sequences; "
               "element + pixel data with offset table and an odd fragment) x {default, NoChange} strategy x {defined, undefined} recorded lengths, symbolic values and (default strategy) symbolic recorded lengths; "
-              "all three uncompressed codecs",
-    "outside": "Date/Time/DateTime values and DS/IS written from binary values (their text comes from core::fmt formatting), F32/F64, character sets other than the default repertoire "
+              "all three uncompressed codecs; Date / Time / DateTime elements of 1..2 values built by running the MIR of every public constructor (from_y .. from_date_and_time_with_time_zone, and the crate-private from_hmsf) "
+              "on symbolic arguments, every offset chrono admits (|secs| < 86400)",
+    "outside": "DS/IS written from binary values, F32/F64, character sets other than the default repertoire "
                "(the text codec is a contract: the instance's characters are their own encoding), the (0008,0005) codec switch, longer values and other stream shapes, whole files with meta group, deflated syntaxes",
-    "assumptions": ["text codec contract: default repertoire is its own encoding", "io::Write on Vec<u8> appends and never fails", "byteorder / byteordered write_uN contracts: N/8 bytes in the stated order",
+    "assumptions": ["text codec contract: default repertoire is its own encoding", "io::Write on Vec<u8> appends and never fails", "byteorder / byteordered write_uN contracts: N/8 bytes in the stated order", "core::fmt: template interpreter and integer rendering in enginem/fmtlib.py (digits are fresh variables tied to the value); chrono::FixedOffset::{east_opt, fmt} run from chrono's MIR",
                     "oracle: PS3.5 7.1/7.5 walker written in enginem/cases/c04.py, also run over the real bytes of every instance (native oracle c04_elem / c04_tokens)"],
 }
 
